@@ -1,5 +1,7 @@
 package main
 
+import "golang.org/x/tools/go/ssa"
+
 func init() {
 	register("C08", checkC08, "equality of the loop output with the unrolled rendering; the order in which reflect enumerates a Go map; a return inside a loop body (recorded under C16)")
 }
@@ -14,6 +16,18 @@ func checkC08(r *Run) {
 	forIterableRuleSSA(r)
 	coreBlockRules(r, "R4", "R4")
 	inLoopFlagRuleSSA(r, "R5")
+	r.Rule("R6", "the output of a loop is collected in a buffer of the loop's own activation: not one kept in the evaluator or a package variable (an inner or a following loop would collect into the same storage)", 1)
+	var forFn *ssa.Function
+	if fe := r.W.evalMethod("ForExpression"); fe != nil {
+		forFn = r.W.SSAFunc(fe)
+	}
+	activationBuffersRule(r, "R6", func(fn *ssa.Function) bool {
+		base := fn
+		for base.Parent() != nil {
+			base = base.Parent()
+		}
+		return forFn != nil && base == forFn
+	}, "for evaluator")
 }
 
 // ---- R4 ---------------------------------------------------------------------
